@@ -176,7 +176,7 @@ fn errset_line(line: &str) -> String {
   use samlang_errors::{ErrorDetail, ErrorSet};
   use samlang_heap::PStr;
   let t: Vec<&str> = line.split_whitespace().collect();
-  if t.len() != 4 || t[0] != "merge" {
+  if t.len() != 4 || (t[0] != "merge" && t[0] != "mergen") {
     return "bad-op".to_string();
   }
   let nats = |s: &str| -> Vec<usize> {
@@ -247,6 +247,17 @@ fn errset_line(line: &str) -> String {
     }
     global.merge(local);
   }
+  if t[0] == "mergen" {
+    // the report `compile_sources` renders: module by module in module-name order; answer = the
+    // location headers of the blocks in order, e.g. `M1.sam:2:3-2:5,M2.sam:1:1-1:2`
+    let text = global.pretty_print_error_messages_in_module_name_order(&heap, &HashMap::new());
+    let heads: Vec<String> = text
+      .lines()
+      .filter(|l| l.starts_with("Error -"))
+      .map(|l| l.rsplit(' ').next().unwrap_or("").to_string())
+      .collect();
+    return if heads.is_empty() { "-".to_string() } else { heads.join(",") };
+  }
   let show_pstr = |p: &PStr| -> String {
     match str_back.get(p) {
       Some(h) => format!("h{h}"),
@@ -290,8 +301,64 @@ fn errset_line(line: &str) -> String {
   if out.is_empty() { "-".to_string() } else { out.join(",") }
 }
 
+/// Protocol `tempctr`: the real `samlang_heap::TempPStrCounter` shared by real threads.
+/// line `tc <start> <n0,n1,..>`: worker i draws n_i names; answer `0:id,id;1:id,..` (ids parsed
+/// back from the names `_t{id}`), workers without requests omitted.
+fn tempctr_line(line: &str) -> String {
+  let t: Vec<&str> = line.split_whitespace().collect();
+  if t.len() != 3 || t[0] != "tc" {
+    return "bad-op".to_string();
+  }
+  let start: u32 = t[1].parse().unwrap();
+  let counts: Vec<usize> = t[2].split(',').map(|x| x.parse().unwrap()).collect();
+  let counter = samlang_heap::TempPStrCounter::new(start);
+  let heap = Heap::new();
+  let barrier = std::sync::Barrier::new(counts.len());
+  let mut results: Vec<Vec<String>> = Vec::new();
+  std::thread::scope(|scope| {
+    let handles: Vec<_> = counts
+      .iter()
+      .map(|n| {
+        let (counter, barrier, n) = (&counter, &barrier, *n);
+        scope.spawn(move || {
+          barrier.wait();
+          let mut names = Vec::with_capacity(n);
+          for k in 0..n {
+            names.push(counter.alloc_temp_str());
+            if k % 3 == 0 {
+              std::thread::yield_now();
+            }
+          }
+          names
+        })
+      })
+      .collect();
+    for h in handles {
+      let names = h.join().unwrap();
+      results.push(names.iter().map(|p| p.as_str(&heap)[2..].to_string()).collect());
+    }
+  });
+  results
+    .iter()
+    .enumerate()
+    .filter(|(_, r)| !r.is_empty())
+    .map(|(w, r)| format!("{w}:{}", r.join(",")))
+    .collect::<Vec<_>>()
+    .join(";")
+}
+
 fn main() {
   std::panic::set_hook(Box::new(|_| {}));
+  if std::env::args().nth(1).as_deref() == Some("tempctr") {
+    samverif_harness::util::for_each_line(|line| {
+      let l = line.to_string();
+      match std::panic::catch_unwind(move || tempctr_line(&l)) {
+        Ok(a) => a,
+        Err(e) => format!("panic:{}", samverif_harness::util::panic_msg(&e)),
+      }
+    });
+    return;
+  }
   if std::env::args().nth(1).as_deref() == Some("errset") {
     samverif_harness::util::for_each_line(|line| {
       let l = line.to_string();
